@@ -83,7 +83,7 @@ fn fault() -> BoxedStrategy<Fault> {
         2 => (0usize..BAD_INTS.len(), any::<bool>()).prop_map(|(i, b)| Fault::BadInt(i, b)),
         3 => (0usize..11).prop_map(Fault::Remove),
         2 => (crate::engine::gen::small_alphabet(&['+', '-', '1', '0', '9', ' ', '.', 'e', 'x', '_', '=', '\t'], 4, 6), any::<bool>()).prop_map(|(v, w)| Fault::OddInt(v, w)),
-        2 => (0u8..5, 0usize..VARS.len(), any::<u16>(), 0u8..27, sumgen::text()).prop_map(|(k, i, p, l, v)| Fault::Misspelt(k, i, p, l, v)),
+        2 => (0u8..5, 0usize..VARS.len(), any::<u16>(), 0u8..33, sumgen::text()).prop_map(|(k, i, p, l, v)| Fault::Misspelt(k, i, p, l, v)),
         1 => (crate::engine::dict::string_token(name_char, "X"), sumgen::text()).prop_map(|(n, v)| Fault::DictName(n, v)),
     ]
     .boxed()
@@ -96,7 +96,16 @@ fn name_char(c: char) -> bool {
 /// one edit of a supported name: 0 substitute, 1 delete, 2 insert, 3 transpose, 4 change case
 pub fn misspell(name: &str, kind: u8, pos: u16, letter: u8) -> String {
     let mut cs: Vec<char> = name.chars().collect();
-    let l = if letter < 26 { (b'A' + letter) as char } else { '_' };
+    let l = match letter {
+        0..=25 => (b'A' + letter) as char,
+        26 => '_',
+        27 => '\0',
+        28 => ' ',
+        29 => '-',
+        30 => '1',
+        31 => 's',
+        _ => '\u{e9}',
+    };
     match kind % 5 {
         0 => {
             let k = idx(pos, cs.len());
@@ -214,7 +223,7 @@ fn enumerate_misspelt(_t: Tier) -> Box<dyn Iterator<Item = Case>> {
             for p in 0..positions {
                 // position p of `positions` through the monotone index map
                 let pos = ((p as u32 * 65536 + positions as u32 - 1) / positions as u32).min(65535) as u16;
-                let letters: Vec<u8> = if kind == 0 || kind == 2 { (0..27).collect() } else { vec![0] };
+                let letters: Vec<u8> = if kind == 0 || kind == 2 { (0..33).collect() } else { vec![0] };
                 for l in letters {
                     names.insert(misspell(name, kind, pos, l));
                 }
